@@ -317,7 +317,7 @@ def gen(seed, profile='general', big=False):
         faults['delay_model'] = {'prob': rng.choice([0.0, 0.3, 1.0]),
                                  'dist': rng.choice(P.get('dists', ['normal'])),
                                  'degree': rng.choice(['LOW', 'MID', 'HIGH', 'NONE']),
-                                 'seed': rng.choice([20, 1, 7, 12345])}
+                                 'seed': rng.choice([20, 0, 1, 7, 12345])}
     if rng.random() < fk.get('F2', 0):
         if rng.random() < 0.55:
             # proposals that the scheduler must *skip*: the run is expected to complete (C04 under F2)
